@@ -298,6 +298,53 @@ Definition tok_eqb (a b : tok) : bool :=
 Definition stream_wf (ts : list tok) : bool :=
   match parse ts with Some t => jt_ok t && list_eqb tok_eqb (toks_of t) ts | None => false end.
 
+(* ------------------------------------------------------------------ what the text demands of kind and events (independent of the read path's code) *)
+Definition nodup_names {A} (fs : list (string * A)) : bool :=
+  (fix go (l : list string) : bool := match l with [] => true | k :: r => negb (existsb (String.eqb k) r) && go r end) (map fst fs).
+(* an annotation {"timestamp": us, "value": text} with 0 < us, an integer literal, whose nanoseconds fit uint64 *)
+Definition anno_spec (a : jt) : option (Z * string) :=
+  match a with
+  | TO m =>
+      if nodup_names m then
+        match jt_get "timestamp" m, jt_get "value" m with
+        | Some (TN raw), Some (TS v) =>
+            match raw with
+            | EmptyString => None
+            | _ => match digits raw 0 with
+                   | Some us => if (0 <? us) && (us * 1000 <? two64) then Some (us * 1000, v) else None
+                   | None => None
+                   end
+            end
+        | _, _ => None
+        end
+      else None
+  | _ => None
+  end.
+(* Some evs: every annotation denotes an event and the span must read back with exactly these; None: no demand *)
+Definition events_spec (t : jt) : option (list (Z * string)) :=
+  match t with
+  | TO fs => if nodup_names fs then
+               match jt_get "annotations" fs with
+               | Some (TA l) => mapM anno_spec l
+               | None => Some []
+               | Some _ => None
+               end
+             else None
+  | _ => None
+  end.
+Definition kind_spec (t : jt) : option Z :=
+  match t with
+  | TO fs => if nodup_names fs then
+               match jt_get "kind" fs with
+               | Some (TS s) => Some (if String.eqb s "CLIENT" then 3 else if String.eqb s "SERVER" then 2
+                                      else if String.eqb s "PRODUCER" then 4 else if String.eqb s "CONSUMER" then 5 else 0)
+               | None => Some 0
+               | Some _ => None
+               end
+             else None
+  | _ => None
+  end.
+
 (* ------------------------------------------------------------------ cases *)
 (* per Zipkin request: the jx token streams of its elements / lines, and per stored row the events OutputQuery returned *)
 Record tcase := {
@@ -322,6 +369,33 @@ Definition tok_mismatches (cs : list tcase) : list Z := map (fun c => c_id (tc_c
 (* streams that are not the tokens of one JSON value (trailing text on an NDJSON line, a text the tokenizer refuses) *)
 Definition tok_illformed (cs : list tcase) : list Z :=
   map (fun c => c_id (tc_case c)) (filter (fun c => negb (forallb stream_wf (tc_toks c))) cs).
+(* the oracle on the OBSERVED kind and events of every stored row whose payload is one JSON value *)
+Definition row_extras_ok (tss : list (list tok)) (row : trow) (o : option rspan) (ev : option (list (Z * string))) : bool :=
+  match payload_toks tss row with
+  | Some ts =>
+      match parse ts with
+      | Some t =>
+          match o with
+          | Some r => match kind_spec t with Some k => rs_kind r =? k | None => true end
+          | None => true       (* the missing span is reads_ok's matter *)
+          end
+          && match ev, events_spec t with
+             | Some e, Some want => list_eqb ev_eqb e want
+             | _, _ => true
+             end
+      | None => true
+      end
+  | None => true
+  end.
+Fixpoint rows_extras_ok (tss : list (list tok)) (rows : list trow) (os : list (option rspan)) (evs : list (option (list (Z * string)))) : bool :=
+  match rows, os, evs with
+  | r :: rows', o :: os', e :: evs' => row_extras_ok tss r o e && rows_extras_ok tss rows' os' evs'
+  | _, _, _ => true
+  end.
+Definition tok_spec_violations (cs : list tcase) : list Z :=
+  map (fun c => c_id (tc_case c))
+      (filter (fun c => negb (c_err (tc_case c)) && negb (rows_extras_ok (tc_toks c) (c_rows (tc_case c)) (c_read (tc_case c)) (tc_events c))) cs).
+
 (* which requests the pre-repair tail tolerance would explain *)
 Definition tok_tail_explains (c : tcase) : bool :=
   let cc := tc_case c in
